@@ -45,7 +45,7 @@ def der_lines(r, n):
         if form == 0 and L < 128: hdr = bytes([4, L])
         elif form == 1: hdr = bytes([4, (L + r.choice([-1, 1, 2])) & 0x7f])
         elif form == 2:
-            k = r.choice([1, 2, 3, 4, 8]); hdr = bytes([4, 0x80 | k]) + L.to_bytes(k, "big")
+            k = r.choice([1, 2, 3, 4, 8]); hdr = bytes([4, 0x80 | k]) + (L % (1 << (8 * k))).to_bytes(k, "big")
         elif form == 3:
             k = r.choice([1, 2, 3, 8, 9, 10, 127]); hdr = bytes([4, 0x80 | k]) + ((L + r.choice([-1, 0, 1])) % (1 << (8 * min(k, 8)))).to_bytes(min(k, 8), "big") + bytes(max(0, k - 8))
         elif form == 4: hdr = bytes([r.choice([3, 4, 5, 0x24]), L & 0x7f])
